@@ -12,6 +12,10 @@ def floatTok? (s : String) : Option (Nat × Score) := (hexNat? s).map fun b => (
 
 def frOfTok? (s : String) : Option Fr := (floatTok? s).map fun p => scoreToFr p.2
 
+def hex16 (n : Nat) : String :=
+  let ds := Nat.toDigits 16 n
+  String.ofList (List.replicate (16 - ds.length) '0' ++ ds)
+
 def list? {α} (sep : String) (f : String → Option α) (s : String) : Option (List α) :=
   if s == "-" then some [] else (s.splitOn sep).mapM f
 
@@ -127,7 +131,7 @@ def handle (line : String) : String :=
     | some inp, some out =>
       if !(allFinite (inp.map (·.2))) then badCase "non-finite input" else
       let sorted := sortDesc (fun p : Nat × Score => p.2.getD 0) inp
-      let model := showList (fun p : Nat × Score => (String.ofList (Nat.toDigits 16 p.1)).pushn '0' 0) sorted
+      let model := showList (fun p : Nat × Score => hex16 p.1) sorted
       -- spec on the implementation's output: non-increasing
       if !(matchesSorted (out.map (·.2))) then specFail model "matches-not-sorted"
       else
